@@ -49,3 +49,28 @@ func VerifHarness_C09_AtomicHelper() {
 		verifReach("interrupted")
 	}
 }
+
+// ---- C09 (helper): the last step of the replacement - the rename - fails ----
+// The write of the temporary file succeeded, the rename over the live file is refused
+// (EIO, EACCES, EPERM; on the first one to three attempts). The live file must still hold the complete
+// previous content (or the new one if a later attempt went through), and a later undisturbed
+// replacement works. A failing rename cannot be produced portably on a real file system,
+// so these are model assertions (no native replay).
+func VerifHarness_C09_RenameFault() {
+	path := verifFSRoot() + "/cfg/data.bin"
+	old := verifBytes("old", verifIntRange("oldLen", 0, 3))
+	new1 := verifBytes("new1", verifIntRange("new1Len", 1, 3))
+	verifFSPutBytes(path, old)
+	errno := []int{5, 13, 1}[verifIntRange("errno", 0, 2)]
+	verifFSFaultRead("rename:"+path+".tmp", errno, verifIntRange("times", 1, 3))
+	err1 := WriteFileAtomic(path, new1, 0o644)
+	got, rerr := os.ReadFile(path)
+	verifAssertModel(rerr == nil, "C09: the file is still there after a replacement whose rename step failed")
+	verifAssertModel(c09Equal(got, old) || c09Equal(got, new1), "C09: after a failed rename step the file holds the complete previous or the complete new content")
+	if err1 == nil {
+		verifAssertModel(c09Equal(got, new1), "C09: a replacement reported as successful took effect")
+	} else {
+		verifReach("refused")
+	}
+	verifReach("done")
+}
